@@ -15,18 +15,32 @@ class Pt:
 class Outer:
   p: Pt
   c: Bits4
+@bitstruct
+class Mat:
+  m: [ [ Bits4, Bits4, Bits4 ], [ Bits4, Bits4, Bits4 ] ]
+  v: [ Bits8, Bits8 ]
+  t: Bits2
+@bitstruct
+class Sq:
+  q: [ [ Bits8, Bits8 ], [ Bits8, Bits8 ] ]
 '''
 # layout known to the generator (first field = most significant bits); cross-checked against pymtl3 objects at run time
 TYPES = {
   'Pt':    {'width': 12, 'fields': [('a', ('b', 8), 4, 12), ('b', ('b', 4), 0, 4)]},
   'Outer': {'width': 16, 'fields': [('p', ('s', 'Pt'), 4, 16), ('c', ('b', 4), 0, 4)]},
+  # a non-square 2-D list field, a 1-D list field and a plain field
+  'Mat':   {'width': 42, 'fields': [(f'm[{i}][{j}]', ('b', 4), 18 + 4 * (3 * i + j), 22 + 4 * (3 * i + j)) for i in range(2) for j in range(3)]
+                                   + [('v[0]', ('b', 8), 2, 10), ('v[1]', ('b', 8), 10, 18), ('t', ('b', 2), 0, 2)]},
+  # a square 2-D list field
+  'Sq':    {'width': 32, 'fields': [(f'q[{i}][{j}]', ('b', 8), 8 * (2 * i + j), 8 * (2 * i + j) + 8) for i in range(2) for j in range(2)]},
 }
 def twidth(T): return T[1] if T[0] == 'b' else TYPES[T[1]]['width']
 def tname(T):  return f'Bits{T[1]}' if T[0] == 'b' else T[1]
 
 class Sig:
-  def __init__(s, inst, name, kind, T):
+  def __init__(s, inst, name, kind, T, lst=None):
     s.inst, s.name, s.kind, s.T = inst, name, kind, T      # inst: tuple path of the owning component, () = top
+    s.lst = lst                                            # (list name, dims) when the signal is an element of a (multi-dim) list of signals
   @property
   def root(s): return 's' + ''.join('.' + x for x in s.inst) + '.' + s.name
   def __repr__(s): return s.root
@@ -142,9 +156,16 @@ class Design:
     def emit(i):
       for c in i.children: emit(c)
       L = []
+      declared = set()
       for x in i.sigs:
         ctor = {'in': 'InPort', 'out': 'OutPort', 'wire': 'Wire'}[x.kind]
-        L.append(f's.{x.name} = {ctor}( {tname(x.T)} )')
+        if x.lst is None:
+          L.append(f's.{x.name} = {ctor}( {tname(x.T)} )')
+        elif x.lst[0] not in declared:
+          declared.add(x.lst[0])
+          txt = f'{ctor}( {tname(x.T)} )'
+          for n in reversed(x.lst[1]): txt = f'[ {txt} for _ in range({n}) ]'
+          L.append(f's.{x.lst[0]} = {txt}')
       for c in i.children:
         L.append(f's.{c.path[-1]} = {c.cls}_{s.name}()')
       st = s.stmts[i.path]
@@ -223,7 +244,7 @@ class Design:
           E.append((Sig(c.path, n, 'in', ('b', 1)).root, Sig(i.path, n, 'in', ('b', 1)).root, i.path))
     return E
 
-TYPE_POOL = [('b', 4), ('b', 8), ('b', 8), ('b', 16), ('b', 16), ('s', 'Pt'), ('s', 'Outer')]
+TYPE_POOL = [('b', 4), ('b', 8), ('b', 8), ('b', 16), ('b', 16), ('s', 'Pt'), ('s', 'Outer'), ('s', 'Mat'), ('s', 'Sq')]
 
 def gen_hierarchy(rng, name, levels=None, rich=True):
   d = Design(name)
@@ -235,6 +256,14 @@ def gen_hierarchy(rng, name, levels=None, rich=True):
     for k in range(nin):  i.sigs.append(Sig(i.path, f'i{k}', 'in', rng.choice(TYPE_POOL)))
     for k in range(nout): i.sigs.append(Sig(i.path, f'o{k}', 'out', rng.choice(TYPE_POOL)))
     for k in range(nw):   i.sigs.append(Sig(i.path, f'w{k}', 'wire', rng.choice(TYPE_POOL)))
+    if rng.random() < 0.35:
+      # a multi-dimensional (also non-square) list of signals
+      kind = rng.choice(['wire', 'out'] if depth == 1 else ['wire', 'out', 'in'])
+      dims = rng.choice([(2, 3), (3, 2), (2, 2), (2, 2, 2)])
+      T = rng.choice([('b', 4), ('b', 8)])
+      import itertools
+      for idx in itertools.product(*[range(n) for n in dims]):
+        i.sigs.append(Sig(i.path, 'l0' + ''.join(f'[{a}]' for a in idx), kind, T, lst=('l0', dims)))
     if depth < levels:
       for k in range(rng.randrange(1, 4) if depth == 1 else rng.randrange(0, 3)):
         c = d.add_inst(i.path + (f'c{k}' if depth == 1 else f'g{k}',), i)
